@@ -79,7 +79,10 @@ UnExp(a) ==
       lp   == IF \A i \in DOMAIN a : a[i] >= 0 THEN [lprod |-> GAll(T, [r |-> ReduceMul(a)])] ELSE << >>
       len  == IF Pythagorean(a) THEN [length |-> GExact(T, [r |-> Length(a)], {Dot(a, a), Length(a)} \cup {DotTo(a, a, n) : n \in 1..Len(a)})] ELSE << >>
   IN base @@ lp @@ len
-UnCase(a) == [a |-> "Un", cls |-> (IF Distinct(a) THEN "distinct" ELSE "ties"), n |-> Len(a), ot |-> SetToSeq(OTys(Rng(a))),
+\* byte values that character-oriented code mishandles (the 8-bit element types stream their components as characters): NUL,
+\* newline, 0x7f, 0x80, 0xff at every position
+ByteVals == IF LatN = "S" THEN {-128, -1, 0, 10, 127} ELSE {0, 10, 127, 128, 255}
+UnCase(a) == [a |-> "Un", cls |-> (IF Rng(a) \subseteq ByteVals THEN "bytes" ELSE IF Distinct(a) THEN "distinct" ELSE "ties"), n |-> Len(a), ot |-> SetToSeq(OTys(Rng(a))),
               arg |-> [a |-> a, wv |-> [i \in DOMAIN a |-> a[Len(a) + 1 - i] + 1]], exp |-> UnExp(a)]
 \* Pythagorean tuples (exact length) in every arrangement and sign pattern, next to the lattice tuples
 PythBase == IF N = 2 THEN {<<3, 4>>, <<5, 12>>} ELSE IF N = 3 THEN {<<2, 3, 6>>, <<1, 4, 8>>} ELSE {<<2, 4, 5, 6>>, <<1, 2, 4, 10>>}
@@ -90,9 +93,10 @@ PythSet == UNION {Arrangements(v) : v \in PythBase}
 \* comparisons of a vector with itself
 TieVals == IF LatN = "S" THEN {-3, 2, 7} ELSE {1, 4, 11}
 TieSet  == {t \in [1..N -> TieVals] : ~Distinct(t)}
+ByteSet  == {t \in [1..N -> ByteVals] : N < 4 \/ ((t[1] + t[2] + t[3] + t[4]) % 3 = 0 /\ 0 \in Rng(t))}     \* (255^4 leaves TLC's integers)
 UnCases == IF Group \notin {"un", "misc"} THEN <<>> ELSE
   LET ks == SetToSeq({k \in 1..M : Mine(k)})
-      ps == IF Part = 0 THEN SetToSeq(PythSet) \o SetToSeq(TieSet) ELSE <<>>
+      ps == IF Part = 0 THEN SetToSeq(PythSet) \o SetToSeq(TieSet) \o SetToSeq(ByteSet) ELSE <<>>
   IN [j \in DOMAIN ks |-> UnCase(TS[ks[j]])] \o [j \in DOMAIN ps |-> UnCase(ps[j])]
 
 \* ---------------------------------------------------------------------------
@@ -102,6 +106,7 @@ NoZero(v) == \A i \in DOMAIN v : v[i] # 0
 DivKinds(a, b, s) == [vv |-> Div(a, b), vs |-> VS(Div, a, s), sv |-> SV(Div, s, b)]
 DivisibleKinds(a, b, s) == {k \in {"vv", "vs", "sv"} : CASE k = "vv" -> Divisible(a, b) [] k = "vs" -> Divisible(a, Splat(s, Len(a)))
                                                               [] k = "sv" -> Divisible(Splat(s, Len(b)), b)}
+DivOk(b, s) == NoZero(b) /\ s # 0
 BinExp(a, b, s) ==
   LET T  == OTys(Rng(a) \cup Rng(b) \cup {s})
       TI == T \cap IntTypes
@@ -115,17 +120,19 @@ BinExp(a, b, s) ==
       dru == DivRoundUp(a, b)
       druI == Rng(dru) \cup Rng(Add(a, b)) \cup {a[i] + b[i] - 1 : i \in DOMAIN a}
       dotI == {DotTo(a, b, n) : n \in 1..Len(a)} \cup Rng(Mul(a, b))
-      base == [ add |-> GRingV(T, add, Ints(add)),
-                sub |-> GRingV(T, sub, Ints(sub)),
-                mul |-> GRingV(T, mul, Ints(mul)),
-                div |-> GExact(TI, div, Ints(div)) \o (IF dk = {} THEN <<>> ELSE GExact(TF, RestrictRec(div, dk), Ints(div))),
+      \* divisions only when no divisor is zero (b and s); a zero divisor is outside every scalar definition
+      dvr  == IF ~DivOk(b, s) THEN << >> ELSE
+              [ div |-> GExact(TI, div, Ints(div)) \o (IF dk = {} THEN <<>> ELSE GExact(TF, RestrictRec(div, dk), Ints(div))),
                 mod |-> GExact(TI, mod, Ints(mod)),
-                min |-> GExact(T, [vv |-> MinV(a, b)], Rng(a) \cup Rng(b)),
-                max |-> GExact(T, [vv |-> MaxV(a, b)], Rng(a) \cup Rng(b)),
                 \* divRoundUp: positive operands only (the domain on which the scalar definition is determined, see VecAlgebra)
                 dru |-> IF \E i \in DOMAIN a : a[i] <= 0 \/ b[i] <= 0 THEN <<>> ELSE
                           GExact(TI, [vv |-> dru], druI)
-                          \o (IF \A i \in DOMAIN a : ModS(a[i] + b[i] - 1, b[i]) = 0 THEN GExact(TF, [vv |-> dru], druI) ELSE <<>>),
+                          \o (IF \A i \in DOMAIN a : ModS(a[i] + b[i] - 1, b[i]) = 0 THEN GExact(TF, [vv |-> dru], druI) ELSE <<>>) ]
+      base == [ add |-> GRingV(T, add, Ints(add)),
+                sub |-> GRingV(T, sub, Ints(sub)),
+                mul |-> GRingV(T, mul, Ints(mul)),
+                min |-> GExact(T, [vv |-> MinV(a, b)], Rng(a) \cup Rng(b)),
+                max |-> GExact(T, [vv |-> MaxV(a, b)], Rng(a) \cup Rng(b)),
                 dot |-> GRingZ(T, [vv |-> Dot(a, b)], dotI),
                 eq  |-> GAll(T, [vv |-> Eq(a, b)]),
                 ne  |-> GAll(T, [vv |-> Ne(a, b)]),
@@ -134,8 +141,9 @@ BinExp(a, b, s) ==
       crs  == IF Len(a) = 3
               THEN [cross |-> GRingV(T, [vv |-> Cross(a, b)], Rng(Cross(a, b)) \cup {a[i] * b[j] : i, j \in 1..3})]
               ELSE << >>
-  IN base @@ crs
-BinCase(a, b, s) == [a |-> "Bin", n |-> Len(a), ot |-> SetToSeq(OTys(Rng(a) \cup Rng(b) \cup {s})), arg |-> [a |-> a, b |-> b, s |-> s], exp |-> BinExp(a, b, s)]
+  IN base @@ dvr @@ crs
+BinCase(a, b, s) == [a |-> "Bin", cls |-> "lattice", n |-> Len(a), ot |-> SetToSeq(OTys(Rng(a) \cup Rng(b) \cup {s})),
+                     arg |-> [a |-> a, b |-> b, s |-> s, nd |-> ~DivOk(b, s)], exp |-> BinExp(a, b, s)]
 \* second operands: all of them (N = 2; every N in the thorough tier where affordable), otherwise J per first operand, chosen
 \* so that every tuple also occurs as a second operand (k -> (P * k + Q * j) mod M is a bijection for every j: P is prime to M)
 J == CASE N = 2 -> M
@@ -245,6 +253,42 @@ McaCases == IF Group # "mca" THEN <<>> ELSE
                              IN McaIntCase(TS[k], WideInts[j], IF (k + j) % 2 = 0 THEN "i" ELSE "l")]
 
 \* ---------------------------------------------------------------------------
+\* group "deg": degenerate operands and aliasing operands
+\*   cls "zeros"    components from {-2, 0, 1, 3}: zero components on either side (no division where a divisor is zero), the
+\*                  zero vector on either side
+\*   cls "parallel" b = m * a for m in {1, -1, 2, -2}: equal, anti-parallel, parallel operands (cross product = 0, dot = m |a|^2)
+\*   action "Alias" operands that ARE the same object: a op a, a op= a, and a op= a.c / a op a.c where the scalar operand is
+\*                  component c of the vector itself - the expected value is the lifting with the value the component had when
+\*                  the operation was called (exp.vs is computed with s = a[c])
+\* ---------------------------------------------------------------------------
+LZ  == {-2, 0, 1, 3}
+ZT  == IF Group = "deg" THEN SetToSeq(DistinctVecs(LZ, N)) ELSE <<>>
+DegOn == Group = "deg"
+ZeroPairs == IF ~DegOn \/ LatN # "S" THEN <<>> ELSE
+  LET ps == SetToSeq((DOMAIN ZT) \X (DOMAIN ZT))
+  IN [i \in DOMAIN ps |-> [BinCase(ZT[ps[i][1]], ZT[ps[i][2]], <<0, 2, -3>>[((ps[i][1] + ps[i][2]) % 3) + 1]) EXCEPT !.cls = "zeros"]]
+ZeroVecs == IF ~DegOn THEN <<>> ELSE
+  LET ks == SetToSeq({k \in 1..M : k % (IF N = 2 THEN 3 ELSE IF N = 3 THEN 15 ELSE 60) = 1})
+  IN [j \in DOMAIN ks |-> [BinCase(Splat(0, N), TS[ks[j]], LatSeq[(j % NL) + 1]) EXCEPT !.cls = "zeros"]]
+     \o [j \in DOMAIN ks |-> [BinCase(TS[ks[j]], Splat(0, N), 0) EXCEPT !.cls = "zeros"]]
+Multiples == IF LatN = "S" THEN <<1, -1, 2, -2>> ELSE <<1, 2, 3>>
+ParCases == IF ~DegOn THEN <<>> ELSE
+  LET ks == SetToSeq({k \in 1..M : k % (IF N = 2 THEN 1 ELSE IF N = 3 THEN 4 ELSE 16) = 0})
+      ps == SetToSeq({ks[x] : x \in DOMAIN ks} \X (DOMAIN Multiples))
+  IN [i \in DOMAIN ps |-> LET a == TS[ps[i][1]]
+                              m == Multiples[ps[i][2]]
+                          IN [BinCase(a, VS(Mul, a, m), m) EXCEPT !.cls = "parallel"]]
+AliasCase(a, c) == [a |-> "Alias", cls |-> "alias", n |-> Len(a), ot |-> SetToSeq(OTys(Rng(a))), arg |-> [a |-> a, k |-> c],
+                    exp |-> LET e == BinExp(a, a, a[c + 1])
+                            IN [op \in (DOMAIN e) \cap {"add", "sub", "mul", "div", "min", "max"} |-> e[op]]
+                               @@ [pos |-> GExact(OTys(Rng(a)), [r |-> a], Rng(a))]]
+AliasCases == IF ~DegOn THEN <<>> ELSE
+  LET ks == SetToSeq({k \in 1..M : k % (IF N = 2 THEN 1 ELSE IF N = 3 THEN 3 ELSE 12) = 0})
+      ps == SetToSeq({ks[x] : x \in DOMAIN ks} \X (0..(N - 1)))
+  IN [i \in DOMAIN ps |-> AliasCase(TS[ps[i][1]], ps[i][2])]
+DegCases == ZeroPairs \o ZeroVecs \o ParCases \o AliasCases
+
+\* ---------------------------------------------------------------------------
 \* group "tern": three vectors, a weight 3-vector, a lerp factor k / 4
 \* ---------------------------------------------------------------------------
 TernExp(a, b, c, f, k) ==
@@ -287,10 +331,23 @@ ConvExp(a, z, q) ==
       s2 == IF Len(a) = 2 THEN [v3from2 |-> GExact(T, [r |-> V3From2(a, z)], {z}), v4from22 |-> GExact(T, [r |-> V4From22(a, q)], {z})] ELSE << >>
       s3 == IF Len(a) = 3 THEN [v4from3 |-> GExact(T, [r |-> V4From3(a, z)], {z}), repad |-> GExact(T, [r |-> a], {z})] ELSE << >>
   IN base @@ s2 @@ s3
-ConvCase(a, z, q) == [a |-> "Conv", n |-> Len(a), ot |-> SetToSeq(OTys(Rng(a) \cup {z} \cup Rng(q))), arg |-> [a |-> a, z |-> z, q |-> q], exp |-> ConvExp(a, z, q)]
+ConvCase(a, z, q) == [a |-> "Conv", cls |-> "lattice", n |-> Len(a), ot |-> SetToSeq(OTys(Rng(a) \cup {z} \cup Rng(q))), arg |-> [a |-> a, z |-> z, q |-> q], exp |-> ConvExp(a, z, q)]
+\* values at the boundaries of the element types (conversions between element types, splat): one family of values per element
+\* type width - the bounds of the type, their neighbours on both sides (which wrap / do not fit), 0; a tuple takes its components
+\* from one family, so every element type gets tuples it can hold and tuples that only just do not fit
+BoundFams == << <<-129, -128, -127, -1, 0, 1, 126, 127, 128>>, <<0, 1, 127, 128, 129, 254, 255, 256, 257>>,
+                <<-32769, -32768, -32767, -129, 128, 255, 256, 32767, 32768>>, <<0, 255, 256, 257, 32768, 65534, 65535, 65536, 65537>>,
+                <<-2147483647, -65537, -65536, -32769, 32768, 65536, 65537, 2147483646, 2147483647>>,
+                <<0, 1, 65535, 65536, 65537, 16777215, 16777216, 2147483646, 2147483647>> >>
+BoundCases == IF Part # 0 \/ LatN # "S" THEN <<>> ELSE
+  LET ps == SetToSeq((DOMAIN BoundFams) \X (1..9))
+  IN [x \in DOMAIN ps |-> LET F == BoundFams[ps[x][1]]
+                              k == ps[x][2]
+                              at(j) == F[((k + j) % 9) + 1]
+                          IN [ConvCase([i \in 1..N |-> at(2 * (i - 1))], at(4), <<at(1), at(5)>>) EXCEPT !.cls = "boundaries"]]
 ConvCases == IF Group \notin {"conv", "misc"} THEN <<>> ELSE
   LET ks == SetToSeq({k \in 1..M : Mine(k)})
-  IN [j \in DOMAIN ks |-> LET k == ks[j] IN ConvCase(TS[k], LatSeq[(k % NL) + 1], T2[((5 * k) % M2) + 1])]
+  IN [j \in DOMAIN ks |-> LET k == ks[j] IN ConvCase(TS[k], LatSeq[(k % NL) + 1], T2[((5 * k) % M2) + 1])] \o BoundCases
 
 \* ---------------------------------------------------------------------------
 \* group "tol": inputs of the operations whose results are decided within a tolerance by VecTolValidate (rcp, rcp_safe,
@@ -312,7 +369,9 @@ MetaCases == IF Group # "meta" THEN <<>> ELSE
       exp |-> [uac |-> [t \in Types |-> [u \in Types |-> UAC(t, u)]],
                inttypes |-> SetToSeq(IntTypes), flttypes |-> SetToSeq(FltTypes)]] >>
      \o [n \in 1..3 |-> [a |-> "Zero", n |-> n + 1, ot |-> SetToSeq(Types), arg |-> [a |-> Splat(0, n + 1)],
-                         exp |-> [sin0 |-> GAll(Types, [r |-> Splat(0, n + 1)]), cos0 |-> GAll(Types, [r |-> Splat(1, n + 1)])]]]
+                         exp |-> [sin0 |-> GAll(Types, [r |-> Splat(0, n + 1)]), cos0 |-> GAll(Types, [r |-> Splat(1, n + 1)]),
+                                  \* the zero vector: length 0; safe_normalize (the operand it exists for) returns the zero vector
+                                  length0 |-> GAll(Types, [r |-> 0]), safenorm0 |-> GAll(FltTypes, [r |-> Splat(0, n + 1)])]]]
 
 Cases == CASE Group = "un" -> UnCases
            [] Group = "bin" -> BinCases
@@ -322,6 +381,7 @@ Cases == CASE Group = "un" -> UnCases
            [] Group = "tol" -> TolCases
            [] Group = "meta" -> MetaCases
            [] Group = "mca" -> McaCases
+           [] Group = "deg" -> DegCases
            [] Group = "misc" -> UnCases \o CmpCases \o ExtCases \o TernCases \o ConvCases \o TolCases
            [] Group = "ext" -> ExtCases
 
